@@ -194,12 +194,13 @@ class Recorder:
         o_update = rw.RandomWalk.update_positions
 
         def update_positions(self, vb, cur, prev):
+            R.cur["placing"] = (int(self.mol_idx), int(cur))
             out = R.next_outcome(["ok", "fail"])
             if out == "fail":
                 ok = False
             else:
                 ok = o_update(self, vb, cur, prev)
-                if out == "ok" and not ok:
+                if out == "ok" and not ok and R.script is not None:
                     raise NoVerdict("natural placement failure on a scripted success")
             R.emit("ok" if ok else "fail", prev=int(prev) + 1, cur=int(cur) + 1)
             return ok
